@@ -59,6 +59,45 @@ CHECKS: Dict[str, Dict[str, str]] = {
         note="Trusted: the bit-length-set algebra implements its operators (C01); reachable alignments are {1, 8}; capacities < 2**64.",
         design="3/C02",
     ),
+    "C16": dict(
+        technique="static analysis: kind/type inference + over-approximate call graph; who-may-call and reachability rules for the "
+        "numerical-expansion sinks; linear-form (interval/congruence) proof that enumeration counts inside modulo are "
+        "bounded by the divisor",
+        text="Decides the structural core of 'layout analysis stays symbolic': expansion sinks (Operator.expand overrides, "
+        "BitLengthSet.__iter__/__len__, validate_numerically, any implicit iteration of a value of kind BitLengthSet) occur "
+        "only in the allow-listed slow paths and the two DSDL intrinsics; no call-graph path leads from any model "
+        "constructor, layout query, equality, hash, finalize or namespace check to a sink; analytic operator queries "
+        "never reference expand; the enumeration counts in both repetition operators are proved <= 4*divisor for all "
+        "k >= 0, d >= 1; aggregation is pairwise. Wall-clock itself is not measured.",
+        note="Trusted: annotation-seeded inference (99.7% of call sites resolved; the rest fall back to by-name dispatch, an "
+        "over-approximation that is sound for must-not-reach rules); positive control on every run (known expansion sites "
+        "must be detected).",
+        design="3/C16",
+    ),
+    "C18": dict(
+        technique="static analysis: class-level lints over the resolved class hierarchy (state components read by __hash__ vs "
+        "compared by __eq__, eq path shapes, stores/mutators outside __init__, accessor return provenance, attribute value kinds)",
+        text="For every class defining __eq__/__hash__ the components read by the hash are a subset of those compared by eq and "
+        "both are overridden together; eq returns NotImplemented for foreign operands on every path; BitLengthSet.__eq__ is "
+        "a conjunction of equalities of set-determined queries; no model class stores or mutates instance state outside "
+        "__init__ (memo slots excepted); no public accessor returns a mutable container attribute by reference; no "
+        "instance attribute holds an unpicklable value. Necessary conditions of the contract for all instances; the "
+        "run-time pickling round trip is not decided.",
+        note="Trusted: Python's default pickling of plain attribute dicts; memo slots are transparent (C01.R3).",
+        design="3/C18",
+    ),
+    "C19": dict(
+        technique="static analysis: who-may-call rule for ReadableDSDLFile.read / .text over the resolved call graph with receiver "
+        "provenance; metadata-only access lint on lookup-list elements; argument provenance of the cross-definition checks",
+        text="Decides that only targets and the single filter-selected dependency are ever evaluated: every call site of read "
+        "and every load of .text is enumerated from the call graph and its receiver must be a loop variable over the "
+        "target list (or its file-pool twin), found[0] of the name+version filter, or self inside read; elements of lookup "
+        "lists are accessed only through path-derived metadata; the definition constructor and the namespace lister never "
+        "open files; result sets and the cross-definition checks are fed only with results of reads; the user's print "
+        "handler is invoked only by the @print directive handler.",
+        note="Trusted: file names are inspected when a directory is listed (allowed by the property); call graph resolution as in C16.",
+        design="3/C19",
+    ),
 }
 
 NOT_APPLICABLE: Dict[str, str] = {}
